@@ -184,7 +184,7 @@ def runRace (b : Block) : Res :=
   let raceL := (field b "race").getD []
   let c12 : Option String :=
     if raceL.head? = some "yes" then some s!"data_race:{raceL.getD 1 "?"}"
-    else match got.find? (fun o => (o.startsWith "ok:" || o.startsWith "err:" || o.startsWith "panic:") && !seq.contains o) with
+    else match got.find? (fun o => (o.startsWith "ok:" || o.startsWith "err:" || o.startsWith "panic:" || o.startsWith "rd:") && !seq.contains o) with
       | some o => some s!"concurrent_outcome_{o}_never_produced_sequentially_{seq}"
       | none => if raceL.isEmpty then some "no_race_verdict" else none
   let c11 : Option String := (once.find? (fun p => p.2 > 1)).map (fun p => s!"run-once_function_f{p.1}_executed_{p.2}_times_concurrently")
